@@ -65,8 +65,8 @@ type c08Case struct {
 	Len    uint16 `json:"len"`
 	Type   uint8  `json:"type"`
 	// BodyLen bytes follow the header (for valid lengths: Len-19)
-	BodyLen int   `json:"body_len"`
-	Cuts    []int `json:"cuts,omitempty"`
+	BodyLen int    `json:"body_len"`
+	Cuts    []int  `json:"cuts,omitempty"`
 	Field   string `json:"field"` // which field the generator perturbed (for the class)
 }
 
